@@ -369,6 +369,9 @@ def auto(F, s, ctx):
                             if desc[0] == "bin" and isinstance(pol, bool) and okey(f, desc[2]) == ok2 and desc[3][0] == "c" and mir.const_of(desc[3]) == 0:
                                 if (desc[1] == "Ge" and not pol) or (desc[1] == "Lt" and pol):
                                     return True, "(len as isize) + idx under idx < 0"
+                # position / length of an in-memory collection plus a small constant: bounded by isize::MAX + c
+                if b is not None and b <= 65536 and collection_index(f, ops[0]):
+                    return True, "index or length of an in-memory collection (<= isize::MAX) plus %d" % b
                 # unit-step counter: every definition of x is a constant or x + small constant
                 if b is not None and b <= 16 and unit_counter(f, ops[0]):
                     return True, "counter that starts at a constant and grows by %d per loop iteration (cannot reach 2^64)" % b
@@ -480,6 +483,20 @@ def neg_operand(f, bi):
     for st in f.blocks[bi]["s"]:
         if st[0] == "=" and st[2][0] == "bin" and st[2][1] == "Eq": return st[2][2]
     return None
+
+INDEX_SOURCES = ("Iterator::position", "Iterator::rposition", "::len", "Iterator::count", "core::str::<impl str>::find", "core::str::<impl str>::rfind", "::binary_search", "::get_index_of", "::get_full")
+def collection_index(f, op, depth=0):
+    """every origin of the operand is the result of position()/len()/count()/find() (possibly unwrapped with ?, ok_or, unwrap)"""
+    os = mir.trace_op(f, op, transparent=mir.PASS_THROUGH + ("Option::<T>::ok_or_else", "Option::<T>::ok_or", "as std::ops::Try>::branch", "Option::<T>::unwrap_or"))
+    if not os: return False
+    for o in os:
+        if o.kind != "call": return False
+        c = mir.callee(o.fn.blocks[o.data]["t"]) or ""
+        if any(c.endswith(x) or x in c for x in INDEX_SOURCES): continue
+        g = _F[0].fn(c) if _F[0] is not None else None
+        if g is not None and depth < 3 and collection_index(g, ["cp", [0]], depth + 1): continue      # a local getter returning such an index
+        return False
+    return True
 
 def from_unsigned_len(f, op):
     d = describe_len(f, op)
